@@ -373,12 +373,6 @@ class NPFacade(types.ModuleType):
     min = amin
 
     @staticmethod
-    def float64(x=0.0):
-        if is_sym(x):
-            return x
-        return _np.float64(x)
-
-    @staticmethod
     def isfinite(x):
         if isinstance(x, _np.ndarray) and x.dtype == object or _has_sym(x):
             return _map(lambda e: True if is_sym(e) else _math.isfinite(e), x)
